@@ -54,8 +54,7 @@ def replay(path):
     with open(path if os.path.isabs(path) else os.path.join(VERIF, path)) as fh:
         rep = json.load(fh)
     print(json.dumps(rep, indent=1))
-    print('--- re-running property %s on %s' % (rep['property'], rep.get('repo', '/repo')))
-    return rep['property']
+    return rep['property'], rep.get('repo'), (rep.get('rule'), rep.get('construct'))
 
 
 def main(argv=None):
@@ -72,7 +71,12 @@ def main(argv=None):
         seed = 0
     prop = args.property
     if args.replay:
-        prop = replay(args.replay)
+        prop, rrepo, what = replay(args.replay)
+        if rrepo and os.path.isdir(os.path.join(rrepo, 'nautilus')) and \
+                args.repo == os.environ.get('NVSTAT_REPO', '/repo'):
+            args.repo = rrepo       # the tree the finding was made on, if it still exists
+        print('--- re-running property %s on %s (finding: rule %s, construct %s)'
+              % (prop, args.repo, what[0], what[1]))
     if prop not in PROPS:
         print('ANALYSIS-ERROR property=%s unknown or not claimed' % prop)
         return 2
